@@ -94,7 +94,11 @@ TInit == /\ tr \in DOMAIN Traces /\ l = 2
             /\ e.a = "Init" /\ e.order = TOrder
             /\ K = [st |-> [w \in Spaces |-> e.st[w]], using |-> [w \in Spaces |-> TRUE], chan |-> <<>>, queue |-> EmptyBag,
                     plt |-> Idle, run |-> FALSE, files |-> [w \in Spaces |-> TRUE]]
+\* a step after which the keeper no longer answers (call or projection queries never returned, panic, process death)
+\* is never a step of the specification
+Wedged(e) == ("res" \in DOMAIN e /\ e.res \in {"hang", "panic", "died"}) \/ ("gate" \in DOMAIN e /\ e.gate = "stuck")
 TNext == /\ l <= Len(Traces[tr].ev)
+         /\ ~Wedged(Traces[tr].ev[l])
          /\ Step(Traces[tr].ev[l]) /\ ProjOK(Traces[tr].ev[l], K')
          /\ l' = l + 1 /\ UNCHANGED tr
 
